@@ -841,9 +841,9 @@ func runStats(c *core.Ctx) {
 		ap := drawAsm(c)
 		if pre := ref.PEPathStats(pr.A, pr.QA, pr.B, pr.QB, r.o.Path); !pre.Ambiguous && pre.AliLength > 0 && pre.MatchLo == pre.MatchHi && c.Rng.Intn(3) == 0 {
 			// a min-identity placed on, or a hair beside, the identity of this very overlap: the decision
-			// is made on the exact ratio, not on the three decimals reported as score_norm
+			// is made on the ratio itself, not on the three decimals reported as score_norm
 			id := identity(pre.MatchLo, pre.AliLength)
-			m := []float64{id, math.Nextafter(id, 2), math.Nextafter(id, -1), math.Ceil(id*1000) / 1000, math.Floor(id*1000) / 1000, id + 0.0004, id - 0.0004}[c.Rng.Intn(7)]
+			m := []float64{id, id + 1e-9, id - 1e-9, math.Ceil(id*1000) / 1000, math.Floor(id*1000) / 1000, id + 0.0004, id - 0.0004}[c.Rng.Intn(7)]
 			ap.MinIdentity = math.Min(1, math.Max(0, m))
 			c.Count("thresholds_on_the_identity", 1)
 		}
